@@ -592,6 +592,7 @@ type nsWorld struct {
 	tm      []*tmClient
 	solos   []*soloClient
 	classes []string
+	aged    bool // the clock of this world was moved across a trusting period once (other clients expire)
 }
 
 type tmClient struct {
@@ -935,6 +936,16 @@ func c16Namespace(c *kit.Check, lim *sigLimiter, caseID int) {
 			}
 			if !sub.frozen && !sub.upgraded && r.Chance(5, 6) {
 				n.updateTM(sub)
+			}
+			if !n.aged && !sub.frozen && !sub.upgraded && r.Chance(1, 3) {
+				// a long-lived substitute: kept alive by updates across more than one trusting period, so that it still
+				// holds consensus states that have expired (recovery must not tidy them up either)
+				n.aged = true
+				for k := 0; k < 2; k++ {
+					n.w.Coord.IncrementTimeBy(ibctesting.TrustingPeriod/2 + time.Hour)
+					n.updateTM(sub)
+				}
+				n.c.Inc("recoveries_with_aged_substitute")
 			}
 			o := n.recover("recover", "tm", subj.ep.ClientID, sub.ep.ClientID)
 			if o.Err == nil && subj.frozen {
